@@ -63,6 +63,13 @@ func (s *Service) create(ctx context.Context, tx gorp.Tx, _channels *[]Channel, 
 	if *s.cfg.ValidateNames {
 		keys := KeysFromChannels(channels)
 		names := Names(channels)
+		// The indexes created below for calculated channels take names as well.
+		for _, ch := range channels {
+			if needsCalculatedIndex(channels, ch) {
+				keys = append(keys, 0)
+				names = append(names, ch.Name+calculatedIndexNameSuffix)
+			}
+		}
 		if err := s.validateChannelNames(ctx, tx, keys, names, opts.RetrieveIfNameExists || opts.OverwriteIfNameExistsAndDifferentProperties); err != nil {
 			return err
 		}
@@ -89,7 +96,7 @@ func (s *Service) create(ctx context.Context, tx gorp.Tx, _channels *[]Channel, 
 	// Auto-create index channels for calculated channels (only for new calculated channels)
 	indexChannels := make([]Channel, 0, len(channels))
 	for _, ch := range channels {
-		if ch.IsCalculated() && ch.LocalKey == 0 {
+		if needsCalculatedIndex(channels, ch) {
 			indexCh := Channel{
 				Name:        ch.Name + calculatedIndexNameSuffix,
 				DataType:    telem.TimeStampT,
@@ -134,6 +141,19 @@ func (s *Service) create(ctx context.Context, tx gorp.Tx, _channels *[]Channel, 
 	oChannels = append(oChannels, batch.Gateway...)
 	*_channels = oChannels
 	return s.maybeSetResources(ctx, tx, oChannels, opts)
+}
+
+// needsCalculatedIndex reports whether creating ch, one of the channels of a request,
+// must also create its index. A request forwarded by another node's gateway already
+// carries the index that gateway added.
+func needsCalculatedIndex(channels []Channel, ch Channel) bool {
+	if !ch.IsCalculated() || ch.LocalKey != 0 {
+		return false
+	}
+	name := ch.Name + calculatedIndexNameSuffix
+	return !lo.ContainsBy(channels, func(c Channel) bool {
+		return c.Name == name && c.IsIndex && c.Virtual && c.Leaseholder == node.KeyFree
+	})
 }
 
 func (s *Service) createAndUpdateFreeVirtual(
